@@ -22,7 +22,7 @@ func init() {
 func genFallback(o *out) {
 	const file = "plugin/executable/sequence/fallback/fallback.go"
 	names := []string{"fallback_send_before_done", "fallback_fail_close_before_send", "fallback_chan_cap",
-		"fallback_collect_rounds", "fallback_wait_cases", "fallback_hold_cases"}
+		"fallback_collect_rounds", "fallback_timer_arg", "fallback_wait_cases", "fallback_hold_cases"}
 	fail := func(why string) {
 		for _, n := range names {
 			o.missing(n, why)
@@ -209,6 +209,23 @@ func genFallback(o *out) {
 		}
 		return "[" + strings.Join(it, "; ") + "]"
 	}
+	// the expression the secondary goroutine arms its threshold timer with:
+	// timer := pool.GetTimer(<arg>)
+	func() {
+		var args []string
+		ast.Inspect(sec.Body, func(n ast.Node) bool {
+			if ce, ok := n.(*ast.CallExpr); ok && exprString(ce.Fun) == "pool.GetTimer" && len(ce.Args) == 1 {
+				args = append(args, exprString(ce.Args[0]))
+			}
+			return true
+		})
+		if len(args) != 1 {
+			o.missing("fallback_timer_arg", fmt.Sprintf("expected 1 pool.GetTimer call in the secondary goroutine, found %d", len(args)))
+			return
+		}
+		fmt.Fprintf(&o.buf, "Definition fallback_timer_arg : string := \"%s\"%%string. (* %s doFallback secondary: argument of pool.GetTimer *)\n",
+			strings.ReplaceAll(args[0], "\"", ""), file)
+	}()
 	if len(sels) != 2 {
 		o.missing("fallback_wait_cases", fmt.Sprintf("expected 2 selects in the secondary goroutine, found %d", len(sels)))
 		o.missing("fallback_hold_cases", fmt.Sprintf("expected 2 selects in the secondary goroutine, found %d", len(sels)))
